@@ -31,6 +31,11 @@
                 self.__strong_cache.popitem(last=False)                 xEvict
                                                                         xRel
         return rv                                                       xRet
+    * exceptional exit: when the constructor raises under the lock (`tzoffset('A','x')`, `tzstr('1')`,
+      `gettz(b'x')`: class `Res.raises`) the next statement is the `with` exit `xRelX`, which releases
+      the lock and ends the call with the exception recorded (`Ev.exc`)
+    * gettz names may resolve to an EXISTING immortal object (`Res.shared slot`: the constant tz.UTC,
+      a vendored ZoneInfoFile entry): `nocache` / the miss path return it instead of constructing
     * `GettzFunc.set_cache_size`  sAcq sSet sLoop sPop sRel;  `GettzFunc.cache_clear`  cAcq cWeak cStrong cRel
     * `_TzFactory.instance` / `GettzFunc.nocache`    fAlloc fInit fRet   (never touch the maps)
     * `_TzSingleton.__call__`                                            (kind `single`)
